@@ -214,7 +214,9 @@ def core_phase(ctx, n):
                                 {"core", "agg", "assign", "impure", "loops"},
                                 {"core", "agg", "structs", "helpers", "match", "assign", "impure", "shadow", "loops"},
                                 {"core", "agg", "structs", "match"},
-                                {"core", "agg", "match", "loops", "assign", "impure"}][i % 10], depth=4) for i in range(n)]
+                                {"core", "agg", "match", "loops", "assign", "impure"},
+                                {"core", "agg", "structs", "enums", "helpers", "match", "assign", "impure", "shadow", "loops"},
+                                {"core", "agg", "enums", "match", "loops", "assign", "impure"}][i % 12], depth=4) for i in range(n)]
     impl = common.run_lines_guarded(common.GVH, [impl_case(c, "ssa", True) for c in cases], per_case_timeout=20.0)
     bit, _, _ = ctx.run_model([dict(model_case(c), op="bit_eval") for c in cases], timeout=3000)
     tally = {"value": 0, "panic": 0, "outside": 0}
